@@ -1,4 +1,6 @@
 import Proofs.FetchReach
+import Proofs.FetchSync
+import Generated.Facts
 /-!
 # C11 — fetching tolerates missing, failing and slow blocks and always terminates
 
@@ -126,5 +128,96 @@ example : reachX cfgF [[5], [9], []] = [e5, e4, e2, e1] := by decide
 /-- a timed-out run: block 4 comes back empty after the cancellation although it is retrievable -/
 example : (accepted cfgF [[5]] [.dispatch [5], .complete [5] (some e5), .dispatch [4], .cancel,
     .complete [4] none]).map (fun s => (s.results, decide (terminated s))) = some ([e5], true) := by decide
+
+/-! ## the synchronisation of `processQueue`: mutex, semaphore, condition variable, cancellation
+
+`Model/FetchSync.lean` is the dispatcher and its worker goroutines at the level of their lock, semaphore
+and condition-variable operations (what the transition system above abstracts into "an enabled dispatch
+/ completion happens").  For every concurrency limit ≥ 1, every number of start hashes, every finite
+budget of hashes that completions may still queue, every interleaving and every moment of
+cancellation: -/
+
+open Model.FetchSync in
+/-- **no deadlock and no lost wake-up**: until `processQueue` returns some goroutine can always move —
+    the dispatcher never sleeps in `Wait` with nobody left to signal, and a dispatcher blocked on the
+    semaphore (while holding the mutex) always has a request in flight whose worker releases its slot
+    before asking for the mutex -/
+theorem sync_no_deadlock (conc q0 budget : Nat) (hc : 0 < conc) (as : List Act) (s : FS)
+    (h : run (init conc q0 budget) as = some s) (hnd : s.pc ≠ .done) : ∃ a s', step s a = some s' :=
+  FetchSync.progress (FetchSync.inv_run as (FetchSync.inv_init conc q0 budget hc) h) hnd
+
+open Model.FetchSync in
+/-- **bounded**: no run is longer than `10·(budget + q0) + 3` steps: together with the previous theorem,
+    every maximal run ends with the dispatcher returning -/
+theorem sync_bounded (conc q0 budget : Nat) (as : List Act) (s : FS)
+    (h : run (init conc q0 budget) as = some s) : as.length ≤ 10 * (budget + q0) + 3 := by
+  have := FetchSync.run_bounded as h
+  have hp : FetchSync.potential (init conc q0 budget) = 10 * (budget + q0) + 3 := by
+    simp [FetchSync.potential, init, FetchSync.rank]
+  omega
+
+open Model.FetchSync in
+/-- **at the return** no worker is left behind, every slot is free again and — unless the dispatcher gave
+    up after a cancellation — nothing is left in the queue -/
+theorem sync_at_return (conc q0 budget : Nat) (hc : 0 < conc) (as : List Act) (s : FS)
+    (h : run (init conc q0 budget) as = some s) (hd : s.pc = .done) :
+    s.t = 0 ∧ s.nF = 0 ∧ s.nW = 0 ∧ s.sem = s.conc ∧ (s.gaveUp = false → s.q = 0) :=
+  FetchSync.at_return (FetchSync.inv_run as (FetchSync.inv_init conc q0 budget hc) h) hd
+
+open Model.FetchSync in
+/-- a completion section never runs while the dispatcher holds the mutex -/
+theorem sync_exclusion (conc q0 budget : Nat) (hc : 0 < conc) (as : List Act) (s s' : FS) (k : Nat)
+    (h : run (init conc q0 budget) as = some s) (he : step s (.enter k) = some s') :
+    s.pc = .waiting ∨ s.pc = .waitingF ∨ s.pc = .done :=
+  FetchSync.exclusion (FetchSync.inv_run as (FetchSync.inv_init conc q0 budget hc) h) he
+
+open Model.FetchSync in
+/-- non-vacuity: one slot, two start hashes, the first completion queues a third: a full run -/
+example : (run (init 1 2 1) [.dispatch, .loopBack, .complete, .dispatch, .wait, .enter 1, .wake, .loopBack, .complete,
+    .dispatch, .wait, .enter 0, .wake, .wait, .complete, .enter 0, .wake, .loopBack, .toFinal, .finish]).map
+      (fun s => (s.pc, s.q, s.t, s.sem)) = some (.done, 0, 0, 1) := by decide
+
+open Model.FetchSync in
+/-- … and the loop proper: the dispatcher parks in the inner `Wait`, a completion queues a hash and wakes it -/
+example : (run (init 2 1 1) [.dispatch, .wait, .complete, .enter 1, .wake, .loopBack, .dispatch, .wait, .complete,
+    .enter 0, .wake, .loopBack, .toFinal, .finish]).map (fun s => (s.pc, s.q, s.t, s.budget)) =
+    some (.done, 0, 0, 0) := by decide
+
+/-- the seeded change C11c (slot released inside the completion section) as a model variant: reachable
+    deadlock — only a cancellation can still happen (`Proofs/FetchSync.lean`) -/
+theorem slot_released_under_mutex_deadlocks :
+    (∀ a, a ≠ Model.FetchSync.Act.cancel → Model.FetchSync.stepOld Model.FetchSync.stuck a = none) :=
+  Model.FetchSync.old_variant_deadlocks
+
+/-! ### the tie of `Model.FetchSync` to entry/fetcher.go: regenerated synchronisation shape
+
+`Generated.syncShape` is the sequence of mutex / semaphore / condition-variable operations, hook points
+and sends on the main path of `Fetch` and `processQueue`, the worker goroutine's body in place with the
+prefix `go:` (`harness/cmd/extract/syncshape.go`).  The model's transitions are these operations: -/
+
+def syncOf (f : String) : List String :=
+  match Generated.syncShape.find? (·.1 == f) with
+  | some p => p.2
+  | none => []
+
+/-- the dispatcher takes the mutex once, acquires a slot (holding the mutex) before each dispatch, spawns
+    the worker, parks in `Wait` in the loop and after it, and releases the mutex at the end; the worker
+    fetches, **releases its slot, then** takes the mutex, records the completion, signals and unlocks -/
+theorem sync_shape_exact : syncOf "processQueue" =
+    ["muProcess.Lock", "sem.Acquire", "hook:fetch.dispatch",
+     "go:fetchEntry", "go:sem.Release", "go:muProcess.Lock", "go:hook:fetch.complete",
+     "go:muClock.Lock", "go:muClock.Unlock", "go:send", "go:condProcess.Signal", "go:muProcess.Unlock",
+     "condProcess.Wait", "condProcess.Wait", "muProcess.Unlock"] := by decide
+
+/-- what `FetchSync.progress` rests on, read off the code: the slot is released before the worker asks for
+    the mutex (`complete` before `enter`), and the signal is sent inside the completion section -/
+theorem slot_released_before_mutex :
+    (syncOf "processQueue").idxOf "go:sem.Release" < (syncOf "processQueue").idxOf "go:muProcess.Lock" ∧
+    (syncOf "processQueue").idxOf "go:muProcess.Lock" < (syncOf "processQueue").idxOf "go:condProcess.Signal" ∧
+    (syncOf "processQueue").idxOf "go:condProcess.Signal" < (syncOf "processQueue").idxOf "go:muProcess.Unlock" := by
+  decide
+
+/-- the timeout covers the whole load (one context for `processQueue`), not each block request -/
+theorem timeout_wraps_the_load : syncOf "Fetch" = "WithTimeout" :: (syncOf "processQueue" ++ ["cancel"]) := by decide
 
 end Model.C11
